@@ -122,6 +122,13 @@ func IsLoadOfCell(cell *ssa.Alloc) func(ssa.Value) bool {
 	is = func(v ssa.Value, d int) bool {
 		if p, isP := v.(*ssa.Parameter); isP && d < 3 {
 			// handed on, by value, to a private helper at its only call site: what the helper sees is that load
+			// (not when the helper is deferred or started with go: its arguments are evaluated at that statement, and
+			// what the helper sees later is the cell's value of then, not a load of now)
+			if site := OnlySite(p.Parent()); site != nil {
+				if _, isCall := site.(*ssa.Call); !isCall {
+					return false
+				}
+			}
 			if a := BoundArg(p); a != nil {
 				return is(a, d+1)
 			}
